@@ -554,7 +554,7 @@ func checkFormat(c *core.Ctx, prop string) {
 		return
 	}
 	devs := gmodel.Filter(gmodel.Deviations(), "line-end", "final-newline", "blank-lines", "trailing-header", "trailing-posting", "status", "code",
-		"header-comment", "tx-comment-line", "posting-count", "indent", "posting-status", "posting-kind", "account-shape", "account-len", "amount-present", "amount-sep",
+		"header-comment", "tx-comment-line", "comment-line-after-posting", "posting-count", "indent", "posting-status", "posting-kind", "account-shape", "account-len", "amount-present", "amount-sep",
 		"commodity", "sign", "number", "cost", "cost-amount", "assertion", "posting-comment", "last-posting-comment", "entry-before", "desc-shape")
 	c.Bound("valid journals", fmt.Sprintf("deviation bound 2 over %d deviations", len(devs)))
 	c.Bound("configurations", fmt.Sprintf("%d configurations (indent 1..8, alignment on/off, minimum column {0,1,10,40,80}, %d commodity-format sets declared in the file or in a workspace file)", len(configs), len(fmtSets)))
